@@ -14,6 +14,7 @@
 //   b r byte*            load the inline image through r's readers; same output as `a` (baseline corpus)
 //   c r byte*            compare the image r writes now with the inline image (baseline corpus)
 //   d r path byte*       hand-made (hostile) image through r's reader `path`, guarded like one step of op 5
+//   e type               C10 input canonicalisation: image digests of the update() overload variants of a hashing type (serde_fams.hpp canon_variants)
 //   63 seed              reseed the random source
 #define SERDE_DEFINE_ALLOC
 #ifdef SERDE_PREBUILT   // the family adapters were compiled separately (serde_fams.hpp with -DSERDE_GROUP=1..5) and are linked in
@@ -21,6 +22,8 @@
 namespace sd {
 Obj* build_g1(int, const Line&); Obj* build_g2(int, const Line&); Obj* build_g3(int, const Line&); Obj* build_g4(int, const Line&); Obj* build_g5(int, const Line&);
 void reseed(uint64_t);
+bool canon_g1(int, Out&); bool canon_g2(int, Out&); bool canon_g4(int, Out&); bool canon_g5(int, Out&);
+inline bool canon(int type, Out& o) { return canon_g1(type, o) || canon_g2(type, o) || canon_g4(type, o) || canon_g5(type, o); }
 inline Obj* build(int fam, const Line& t) {
   Obj* p = nullptr;
   if ((p = build_g1(fam, t))) return p;
@@ -132,6 +135,9 @@ static void handler(const Line& t, Out& o) {
     Bytes img; for (size_t i = 3; i < t.size(); ++i) img.push_back((uint8_t)t[i]);
     LoopResult r = guarded_loop(0, 1, [&](long) { return attempt(x, path, img.data(), img.size(), nullptr); });
     emit_loop(o, r, 1);
+    break; }
+  case 0xe: {   // C10 input canonicalisation of one hashing type: one image digest per (overload, value set) variant
+    if (!canon((int)t.at(1), o)) o.R(-2);
     break; }
   default: o.R(-2);
   }
